@@ -1,6 +1,9 @@
 N = {"quick": 400, "thorough": 8000}
 EXHAUSTIVE = {"quick": False, "thorough": True}
-RULE = ("cases = committed corpus (corpus/C12W: fixed vectors for the conventions and observations named in the theorems) + seeded generator of harness/src/bin/c12w.rs. "
+RULE = ("cases = committed corpus (corpus/C12W: fixed vectors for the conventions and observations named in the theorems; D_review_*: the hand-made inputs of the review of the "
+        "sub-check theorems - the f64 helpers between chrono's last instant and 2^64 and half a binary64 spacing either side of the bound, numerals with exponents of up to "
+        "10^32 (`0e99999999999`, `1e-99999999999`: a driver must answer without computing 10^huge), the binary64 overflow / underflow thresholds, raw non-ASCII op tokens) "
+        "+ seeded generator of harness/src/bin/c12w.rs. "
         "60 %: stream cases - 0-4 messages buffered during subscription validation (real process_buffered_events), ExchangeStream::new with an explicit initial buffer of 0-3 "
         "Ok/Err items and a stateful scripted Transformer (Input = Vec<u32>, running sum, one output per element, error on multiples of 7), then 0-30 / 0-60 ops over "
         "push <Text|Binary|Ping|Pong|Close(None|code,reason)|Frame|Err(18 tungstenite error kinds)|Pending>, end, poll, drain, collect; payloads from valid Vec<u32> JSON "
@@ -23,8 +26,16 @@ ASSUMPTIONS = [
     "Duration::from_secs_f64 (round half to even), chrono's last representable second 8 210 266 876 799",
     "f64: the decimal -> binary64 rounding of str::parse::<f64> is a parameter (FloatSem) in every theorem; the driver instantiates it with IEEE-754 round-to-nearest-even on exact "
     "rationals (subnormals and overflow included) and compares exactly, not with a tolerance",
-    "the spec driver decides the f64 helpers only on numerals that binary64 represents exactly (so no rounding is involved) and on strings containing a character foreign to the "
-    "documented grammar of f64::from_str; panics are never required by the spec (where the code panics the spec is silent)",
+    "the spec driver decides the VALUE of the f64 helpers only on unsigned numerals that binary64 represents exactly (so no rounding is involved; its own reader of the documented "
+    "grammar and its own test `k*2^x, k < 2^53`, not the model's parseNumber / nearestF64) and rejects strings containing a character foreign to the documented grammar of "
+    "f64::from_str; since the review it REQUIRES the panic of all four time helpers on a value beyond chrono's last instant (u64: ms/1000 > 8 210 266 876 799; f64: the decimal is "
+    ">= the bound minus half a binary64 spacing there - 1/2 ms resp. 2^-11 s, hand-derived from the binary64 format and checked against `ieee` by four kernel-evaluated examples - "
+    "or has a non-zero mantissa and a decimal exponent >= 400); the doc comments of de.rs say nothing about panics: the bound is chrono's, the clause records what the code does "
+    "and is exercised by mutants C12W_f64_ms_saturates_at_chrono_max / C12W_f64_s_out_of_range_is_error; on signed numerals, inf / nan words and non-exact values the spec stays silent",
+    "numerals with huge exponents: the model's parseNumber denotes the exact rational m*10^E, which no program can evaluate for E = 99999999999; the driver evaluates the model through "
+    "parseF64Fast (Model/ExchangeStream.lean): zero mantissa => 0, non-zero mantissa with E >= 400 => +-inf, with E + #digits <= -400 => 0, otherwise the exact value handed to the "
+    "rounding. f64_fast_agrees proves parseF64Fast = parseF64Str for EVERY rounding outside the two clamped branches; inside them the equality is a property of `ieee` "
+    "(10^400 > 2^1024, 10^-400 < 2^-1075) that is NOT proved for all arguments - three kernel-evaluated witnesses at the thresholds and the correspondence on the corpus stand for it",
     "JSON values reach the de.rs model pre-lexed (plain string / string with escapes / unsigned integer literal / anything else); the lexer is driver glue",
     "a numeral followed by junk inside one JSON token (e.g. `18446744073709551615x`) is not generated for the bare-number helper: serde_json calls the helper before it sees the junk",
 ]
@@ -47,30 +58,58 @@ TECHNIQUE = ("Lean 4: ExchangeStream::poll_next as a state machine over an arbit
              "specification (every message replaced by its outputs, Pending kept in place) by induction over the script; conservation (emitted ++ owed = total), splitting law, "
              "no read-ahead; the WebSocket parser as a total decision table; de.rs as exact integer / rational arithmetic with the f64 rounding abstract; correspondence with the "
              "real ExchangeStream, WebSocketParser, process_buffered_events and de.rs helpers")
-LEVEL_TEXT = ("Proof (sub-check of C12). lean/BarterModel/Props/C12W.lean proves, for EVERY parser, error conversion, stateful transformer, initial buffer and inner-stream script: "
+LEVEL_TEXT = ("Proof (sub-check of C12). lean/BarterModel/Props/C12W.lean (91 theorems) proves, for EVERY parser, error conversion, stateful transformer, initial buffer and inner-stream script: "
               "the n-th poll_next result is the n-th entry of the specification trace - buffer first, then every message replaced by err(parse error) / nothing / the transformer's "
               "outputs with the transformer state threaded in message order, every Pending of the inner stream kept in place, then Ready(None) (ended) or Pending for ever "
-              "(polls_refine_spec, polls_eq_prefix_then_exhausted); hence every item once and in order (outputs_complete, outputs_prefix, emitted_plus_future), buffer first "
-              "(buffer_first, buffer_emitted_first), the stream ends iff the inner stream ended and everything was handed out and stays ended (ends_iff, after_end_always_none), "
-              "Pending only where the inner stream was pending (pending_count, pending_after_script_iff, pending_leaves_state), no read-ahead and state threading "
-              "(transformer_threaded, final_transformer_state), splitting and extension laws (spec_out_append, script_extension_stable), error items never end the stream "
-              "(error_does_not_end_stream, close_does_not_end_stream), process_buffered_events = the stream with parse failures dropped (buffered_events_first, buffered_like_live). "
-              "WebSocketParser::parse for every deserialiser: skipped iff Ping/Pong/Frame, Close -> Terminated(Debug of the frame), transport error passed on, Ok only from the "
-              "deserialiser on a data payload, a failed text / UTF-8 binary payload is carried in the error (text_failure_carries_payload, binary_failure_carries_payload), "
-              "a failed non-UTF-8 binary payload is NOT: the payload field holds the UTF-8 error text (binary_failure_not_utf8_reports_error_text, binary_payload_lost_witness); "
-              "is_websocket_disconnected is true for exactly four errors (disconnected_iff); close-code classes. de.rs: u64 ms exact, rejected iff not a u64 literal, PANICS iff "
-              "beyond chrono's range (u64_ms_exact, u64_ms_rejects_iff, u64_ms_panics_iff); de_str needs an escape-free string literal; u64::from_str accepts exactly +?digits+ "
-              "fitting u64 (parse_u64_ok_iff); string and number encodings agree (str_u64_agrees_with_u64); f64 ms truncates, negative and NaN become the epoch, inf panics "
-              "(f64_ms_value, f64_ms_truncates, f64_ms_negative_is_epoch, f64_ms_nan_is_epoch, f64_ms_inf); f64 s is the nearest nanosecond, within delta*1e9 + 1/2 ns of the "
-              "decimal for any rounding error delta, and PANICS on negative / NaN / inf / >= 2^64 (f64_s_value, f64_s_nearest_nanosecond, f64_s_within_tolerance, f64_s_panics); "
-              "extract_next sequences (extract_all_ok, extract_all_missing); se_element_to_vector. The parser and is_websocket_disconnected refine a documentation-level "
-              "decision table wherever it is not silent, and it is silent exactly for a failed non-UTF-8 binary payload (parse_refines_spec, spec_silent_iff, "
-              "disconnected_refines_spec). End to end from the characters of a decimal / scientific numeral: f64::from_str reads the rounding of the denoted value "
-              "(f64_from_str_numerals, f64_from_str_scientific, f64_from_str_rejects), the seconds helper is within delta*1e9 + 1/2 ns of it (f64_s_decimal_within_tolerance), "
-              "the milliseconds helper truncates (f64_ms_decimal_end_to_end, f64_ms_huge_panics), a negative numeral is the epoch / a panic (negative_numeral). A poll reads "
-              "no further than needed (poll_is_lazy). Every ExchangeStream run is one connection script of the C12 model (exchange_stream_is_a_c12_connection). "
-              "No theorem is _partial. Self-test: 18 hand-written changes of the modelled code (mutants/C12W_*.patch) - 17 reported with a concrete violating input, "
+              "(polls_refine_spec, polls_eq_prefix_then_exhausted: the single point of strength of part A); hence every item once and in order (outputs_complete, outputs_prefix, "
+              "emitted_plus_future), buffer first (buffer_first, buffer_emitted_first), no read-ahead and state threading (transformer_threaded, final_transformer_state), a poll reads "
+              "no further than needed (poll_is_lazy), process_buffered_events = the stream with parse failures dropped (buffered_like_live). Statements about the SPECIFICATION trace "
+              "only, which reach the model through polls_refine_spec / outputs_complete: the trace ends iff the inner stream ended and everything was handed out and stays ended "
+              "(ends_iff, after_end_always_none - under the scripted-inner-stream assumption, see the note), Pending only where the inner stream was pending (pending_count, "
+              "pending_after_script_iff), splitting and extension laws (spec_out_append, script_extension_stable), error items never end it (error_does_not_end_stream, "
+              "close_does_not_end_stream, housekeeping_invisible), buffered_events_first. "
+              "LINK TO C12 (restated after the review): for every run of more polls than the script determines, the Ready(Some _) outputs of polls/pollNext in order - Pendings "
+              "dropped: a Pending carries no content at the C12 level - together with whether the last poll was Ready(None) ARE the inner stream connStream elems hang of one C12 "
+              "connection, whose steps are every buffered item and every output of every message once and in order and which ends iff the socket-level stream ended "
+              "(exchange_stream_run_is_a_c12_connection, run_ends_iff_inner_ended); an unfinished run has handed over a prefix (unfinished_run_is_a_prefix_of_the_c12_connection); "
+              "two inner streams with the same messages and Pendings at different moments present the same connection (pendings_carry_nothing_to_c12). "
+              "WebSocketParser::parse for every deserialiser: skipped iff Ping/Pong/Frame (skipped_iff_housekeeping), Ok only from the deserialiser on a data payload "
+              "(ok_only_from_data), a failed text / UTF-8 binary payload is carried in the error (text_failure_carries_payload, binary_failure_carries_payload, "
+              "ascii_binary_failure_verbatim), a failed non-UTF-8 binary payload is NOT: the payload field holds the UTF-8 error text "
+              "(binary_failure_not_utf8_reports_error_text, binary_payload_lost_witness); is_websocket_disconnected is true for exactly four errors (disconnected_iff); close-code "
+              "classes (close_code_classes, _reserved, _iana, _library). de.rs: u64 ms exact, rejected iff not a u64 literal, PANICS iff beyond chrono's range (u64_ms_exact, "
+              "u64_ms_rejects_iff, u64_ms_panics_iff); de_str needs an escape-free string literal and never panics itself; u64::from_str accepts exactly +?digits+ fitting u64 "
+              "(parse_u64_ok_iff); string and number encodings agree (str_u64_agrees_with_u64); f64 ms truncates, negative / NaN / -inf become the epoch (f64_ms_value, "
+              "f64_ms_truncates, f64_ms_negative_is_epoch, f64_ms_nan_is_epoch, f64_ms_inf) and it PANICS iff the value is +inf, >= 2^64 or its whole milliseconds lie beyond "
+              "chrono's last second (f64_ms_panics_iff, from f64_ms_huge_panics + f64_ms_panics_beyond_chrono); f64 s is the nearest nanosecond, within delta*1e9 + 1/2 ns of the "
+              "decimal for any rounding error delta (f64_s_value, f64_s_nearest_nanosecond, f64_s_within_tolerance - delta stays abstract), and PANICS iff the value is NaN, "
+              "infinite, negative, >= 2^64 or rounds to a nanosecond count beyond chrono's last second (f64_s_panics_iff, from f64_s_panics + f64_s_panics_beyond_chrono; the last "
+              "disjunct is literally the negation of the hypothesis hr of f64_s_value / f64_ms_value - before the review the band between chrono's last second and 2^64 was in no "
+              "theorem); extract_next sequences (extract_all_ok, extract_all_missing). End to end from the characters of a decimal / scientific numeral: f64::from_str reads the "
+              "rounding of the denoted value (f64_from_str_numerals, f64_from_str_scientific), a zero mantissa is 0 whatever the exponent (f64_zero_mantissa_any_exponent), the "
+              "seconds helper is within delta*1e9 + 1/2 ns of it (f64_s_decimal_within_tolerance), the milliseconds helper truncates (f64_ms_decimal_end_to_end), a negative numeral "
+              "is the epoch / a panic (negative_numeral); the evaluation the driver uses for numerals with huge exponents is the model's outside two clamped branches "
+              "(f64_fast_agrees). The parser and is_websocket_disconnected agree with a second, documentation-level decision table wherever that is not silent, and it is silent "
+              "exactly for a failed non-UTF-8 binary payload (parse_refines_spec, spec_silent_iff, disconnected_refines_spec - two tables by the same hand, see the note). "
+              "Definitional / bookkeeping statements, in the file but not results (proved by rfl or true of every list): pending_leaves_state, exhausted_is_fixed, "
+              "datetime_from_duration (its 'panics exactly when' is the `if` of the definition), close_is_terminated, transport_error_passed, se_element_is_singleton, "
+              "f64_words_accepted, f64_from_str_rejects, from_millis_total, skippable_contributes_nothing, parse_error_is_passed_downstream, text_ok, binary_ok, "
+              "exchange_stream_is_a_c12_connection (holds for every list and flag: any_list_is_a_c12_connection) - they pin the model's conventions for the reader. "
+              "No theorem is _partial. Self-test: 20 hand-written changes of the modelled code (mutants/C12W_*.patch) - 19 reported with a concrete violating input, "
               "1 (binary payload rendered lossily instead of as the UTF-8 error text, where the documentation is silent) as no-failing-input-found.")
 LEVEL_NOTE = ("Trusted: Lean kernel; axioms propext/Classical.choice/Quot.sound only; the hand-written model (Model/ExchangeStream.lean) tied to the code by sampled correspondence "
               "(400 quick / 8 000 random + 7 381 enumerated scripts + full catalogues thorough); harness, driver glue (JSON lexer, Vec<u32> reader, scripted transformer on both "
-              "sides); the modelled slices of tungstenite / bytes / core / chrono named in the assumptions. Wakers, serde_json error texts, tracing and `connect` are not modelled.")
+              "sides, the `big` abbreviation of f64 values with |binary exponent| beyond 60 / 120 that the harness prints); the modelled slices of tungstenite / bytes / core / chrono "
+              "named in the assumptions. Wakers, serde_json error texts, tracing and `connect` are not modelled. "
+              "Reading guide after the review of the sub-check theorems: (a) ends_iff, after_end_always_none, pending_count, pending_after_script_iff, script_extension_stable, "
+              "buffered_events_first and the specOut laws are statements about the specification trace; they hold of poll_next only through polls_refine_spec / outputs_complete, "
+              "which therefore carry part A. (b) 'stays ended' rests on the scripted-inner-stream assumption: the model's inner stream answers Ready(None) for ever once ended, "
+              "whereas the real poll_next re-polls the inner stream after None, so an inner stream that yields again after None (not fused) would be passed through - outside the "
+              "model. (c) specParse is the parser's table re-nested through `disposition`, specDisconnected the code's table with the Protocol / Tls rows left open: "
+              "parse_refines_spec, spec_silent_iff and disconnected_refines_spec compare two tables written by the same hand; their content is the reading of the doc comments "
+              "recorded in those tables, and the one place where the tables differ (failed non-UTF-8 binary payload). (d) f64_s_within_tolerance keeps the rounding error delta "
+              "abstract; no theorem bounds delta for the driver's `ieee` (half an ulp), so the end-to-end statement for the real rounding exists only as kernel-evaluated examples "
+              "and through the exact correspondence - left open. (e) outside |E| < 400 the driver does not evaluate the model's parseF64Str but parseF64Fast; equality there is "
+              "argued (10^400 > 2^1024, 10^-400 < 2^-1075), witnessed at the thresholds and exercised by the corpus, not proved. (f) the spec driver's panic clause for values "
+              "beyond chrono's last instant is not in the documentation of de.rs; it was added on request of the review so that the panic band is an oracle key and not only a "
+              "correspondence key.")
